@@ -73,7 +73,7 @@ def interval_arg(I, spelling):
     # pairs (|dt| < secs  <=>  |dt| < secs - 0.5) - as a number and as a string alike
     frac = [secs - 0.5, "%r s" % (secs - 0.5), np.float64(secs - 0.25)] if secs >= 1 else [secs, "%d s" % secs, float(secs)]
     return ([secs, "%d s" % secs, "%d minutes" % I if TICK_S == 60 else "%d seconds" % secs, dt.timedelta(seconds=secs), float(secs)]
-            + frac)[spelling % 8]
+            + frac + [np.int64(secs), np.float32(secs), np.int32(secs)])[spelling % 11]       # numpy scalars: what arr.max() hands over
 
 
 def distance_arg(k, N, spelling):
